@@ -59,6 +59,21 @@ def find_args_open(s):
     return last
 
 
+def top_level_as(s):
+    """index of the first ' as ' outside parentheses and angle brackets (types may contain `<T as Trait>`)"""
+    dp = da = 0; i = 0; n = len(s)
+    while i < n:
+        ch = s[i]
+        if ch == '(': dp += 1
+        elif ch == ')': dp -= 1
+        elif ch == '<': da += 1
+        elif ch == '>' and s[i - 1] not in '-=': da -= 1
+        elif ch == '"': return None
+        elif dp == 0 and da == 0 and s.startswith(' as ', i): return i
+        i += 1
+    return None
+
+
 def split_assign(t):
     """index of the ' = ' separating destination place and right-hand side: the first one outside parentheses
     (a projected place carries its type in parentheses, and types may contain `Output = ...`)"""
@@ -204,6 +219,10 @@ def parse_rvalue(s):
         # cast?  "<operand> as <ty> (<Kind>...)"
         m = re.match(r'(.*) as (.+?) \((\w+)[^()]*(\([^()]*\))?[^()]*\)$', s, flags=re.S)
         if m and not s.startswith('const "'):
+            k = top_level_as(s)
+            if k is not None and k != len(m.group(1)):
+                m2 = re.match(r'(.+?) \((\w+)[^()]*(\([^()]*\))?[^()]*\)$', s[k + 4:], flags=re.S)
+                if m2: return ('cast', parse_operand(s[:k]), m2.group(1).strip(), m2.group(2))
             return ('cast', parse_operand(m.group(1)), m.group(2).strip(), m.group(3))
         return ('use', parse_operand(s))
     if s.startswith('(') and s.endswith(')'):
